@@ -3,7 +3,7 @@
 cd "$(dirname "$0")/.."
 for d in seeded/*/; do
   id=$(basename $d)
-  prop=$(python3 -c "import json;print(json.load(open('$d/meta.json'))['property'])")
+  prop=$(python3 -c "import json;m=json.load(open('$d/meta.json'));print(' '.join(m.get('checks',[m['property']])))")
   echo "### $id (property $prop)"
   tools/try_mutant.sh $d/patch.diff $prop 2>&1 | grep -E "^==|^   " | cut -c1-220
 done
